@@ -347,3 +347,147 @@ func c19NilCause(w *World, r *Report) {
 		}
 	}
 }
+
+// ---- C19.8: a recovered panic is reported through what the function returns --------------------------
+//
+// `defer recoverAsError(x, &err)` (or a deferred closure assigning err) turns a panic into an error
+// only if err is a *named result* of the function: after a panic the function returns from its
+// recover block, which yields the named results and nothing else. With a local variable the handler
+// writes into memory nobody reads and the caller is told "no error" - a malformed rule set counts as
+// loaded. Decided per deferred recovering handler: the variable it writes is loaded by the
+// function's recover block and returned.
+func c19RecoverIntoResult(w *World, r *Report, id string) {
+	ri := r.Rule(id, 1, "a deferred handler that converts a panic into an error writes into a named result of the deferring function (the value its recover block returns)")
+	n := 0
+	for _, fn := range w.Funcs {
+		if w.isMockFn(fn) || fn.Blocks == nil {
+			continue
+		}
+		for _, c := range callsIn(fn) {
+			d, ok := c.(*ssa.Defer)
+			if !ok {
+				continue
+			}
+			var targets []ssa.Value // the variables (allocs of fn) the handler writes after recover()
+			if mc, isMC := d.Call.Value.(*ssa.MakeClosure); isMC {
+				cf, _ := mc.Fn.(*ssa.Function)
+				if cf == nil || !callsRecover(cf) {
+					continue
+				}
+				eachInstr(cf, func(in ssa.Instruction) {
+					if st, ok := in.(*ssa.Store); ok {
+						if fv, ok := st.Addr.(*ssa.FreeVar); ok && isErrorPtr(fv.Type()) {
+							for i, f := range cf.FreeVars {
+								if f == fv && i < len(mc.Bindings) {
+									targets = append(targets, mc.Bindings[i])
+								}
+							}
+						}
+					}
+				})
+			} else if df := d.Call.StaticCallee(); df != nil && df.Blocks != nil && w.inModule(df) && callsRecover(df) {
+				eachInstr(df, func(in ssa.Instruction) {
+					if st, ok := in.(*ssa.Store); ok {
+						if p, ok := st.Addr.(*ssa.Parameter); ok && isErrorPtr(p.Type()) {
+							for i, q := range df.Params {
+								if q == p && i < len(d.Call.Args) {
+									targets = append(targets, d.Call.Args[i])
+								}
+							}
+						}
+					}
+				})
+			}
+			for _, t := range targets {
+				n++
+				r.Analysed(w.FnName(fn))
+				al, _ := t.(*ssa.Alloc)
+				ok := false
+				if al != nil && fn.Recover != nil {
+					for _, in := range fn.Recover.Instrs {
+						ret, isRet := in.(*ssa.Return)
+						if !isRet {
+							continue
+						}
+						for _, rv := range ret.Results {
+							if u, isU := rv.(*ssa.UnOp); isU && u.Op == token.MUL && u.X == ssa.Value(al) {
+								ok = true
+							}
+						}
+					}
+				}
+				r.Ob(ri, w.FnName(fn)+"|recovered-error-is-returned", d.Pos(), ok, "the deferred handler converts a panic into an error but stores it into a variable that is not a named result of "+fn.Name()+": after a panic the function returns its (zero) results and the caller sees success")
+			}
+		}
+	}
+	if n == 0 {
+		r.Undecided(ri, "no deferred handler converts a panic into an error")
+	}
+}
+
+func callsRecover(fn *ssa.Function) bool {
+	for _, c := range callsIn(fn) {
+		if callName(c.Common()) == "builtin.recover" {
+			return true
+		}
+	}
+	return false
+}
+
+func isErrorPtr(t types.Type) bool {
+	p, ok := t.Underlying().(*types.Pointer)
+	return ok && isErrorType(p.Elem())
+}
+
+// ---- C19.9: no return with a mutex held ----------------------------------------------------------------
+//
+// A reload that fails half-way (a key store whose certificate does not fit, a credentials file that
+// does not parse) returns early. If that return leaves a mutex locked, every later reader of the
+// reloadable state - TLS handshakes, token signing, the next reload - blocks for ever: the process
+// is as dead as after a crash, and nothing recovers it. Decided for every module function that
+// locks a sync.Mutex / RWMutex: on every path to a return the lock was released, or its release is
+// deferred (must-analysis over the CFG; lock identity by receiver access path).
+func c19NoLockLeak(w *World, r *Report) {
+	ri := r.Rule("C19.9", 10, "no function returns with a mutex it locked still held (every path to a return unlocks, or the unlock is deferred)")
+	n := 0
+	var fns []*ssa.Function
+	for _, fn := range w.Funcs {
+		if w.isMockFn(fn) || fn.Blocks == nil || !w.inModule(fn) {
+			continue
+		}
+		fns = append(fns, fn)
+	}
+	sort.Slice(fns, func(i, j int) bool { return fns[i].String() < fns[j].String() })
+	for _, fn := range fns {
+		li := lockSets(fn)
+		locks := false
+		for _, op := range li.Ops {
+			if op.Op == "lock" || op.Op == "rlock" {
+				if _, isDefer := op.Call.(*ssa.Defer); !isDefer {
+					locks = true
+				}
+			}
+		}
+		if !locks {
+			continue
+		}
+		n++
+		r.Analysed(w.FnName(fn))
+		// a function that hands the lock to its caller on purpose (acquire helpers) never unlocks at all
+		unlocks := false
+		for _, op := range li.Ops {
+			if op.Op == "unlock" || op.Op == "runlock" {
+				unlocks = true
+			}
+		}
+		if !unlocks && len(li.Deferred) == 0 {
+			continue
+		}
+		pos := fn.Pos()
+		leaked := uniq(append(append([]string{}, li.Unpaired...), mayHeldAtReturn(fn)...))
+		r.Ob(ri, w.FnName(fn)+"|no-lock-leak", pos, len(leaked) == 0, "a return is reachable with "+strings.Join(leaked, ", ")+" still locked: after that failure every user of the guarded state blocks for ever")
+	}
+	if n == 0 {
+		r.Undecided(ri, "no module function locks a mutex")
+	}
+}
